@@ -1,16 +1,13 @@
 SPECIFICATION MCSpec
 CONSTANTS
   Cap = 2
-  SegCaps = {2}
+  SegCaps = {1, 2, 3}
   FixStale = TRUE
-  MaxSets = 4
-  MaxOps = 7
-  MaxFails = 2
-  MaxFaults = 2
+  MaxSets = 10
+  MaxOps = 16
+  MaxFails = 3
+  MaxFaults = 5
   UseKeys = {"k1", "k2", "k3"}
-  MaxHand = 0
+  MaxHand = 3
   UseClients = {"c1", "c2"}
-INVARIANTS TypeOK
-PROPERTIES StepsOK
-VIEW MCView
 CHECK_DEADLOCK FALSE
